@@ -277,7 +277,8 @@ func TestProp(t *testing.T) {
 			"Oracle: the text returned by Encode is unchanged by two later Encode/Decode calls on other geometries (results kept across calls, as in a batch), and the decoded value likewise; Decode(Encode(g)) same type/nesting and bit-identical coordinates (the property lists negative zero among the inputs and asks for exactly the same coordinates); text parsed independently with encoding/json+UseNumber: object with exactly type and " +
 			"coordinates, RFC 7946 type name, nesting depth 1/2/2/3/3/4 with the member lengths of g, every position exactly two numbers that ParseFloat to the bits of (x,y) in order. " +
 			"Non-trivial = >=2 members/positions or a coordinate needing >=16 significant digits, or a non-finite negative case. Distinct by case hash." +
-			" Round 9: tiled layers (8-24 polygons with the same number of rings and shells of one size, holes of differing sizes).",
+			" Round 9: tiled layers (8-24 polygons with the same number of rings and shells of one size, holes of differing sizes)." +
+			" Round 11: collections with a nil member (directly or one level down) among the negatives.",
 		Assumptions: []string{"nil and empty member slices are identified"},
 		Gen:         gen,
 		Run:         run,
